@@ -213,15 +213,27 @@ fn server_busy_peer_case(seed: u64, n: u64, ev: &mut Evidence) {
     let framing = if n % 2 == 0 { Framing::Mbap } else { Framing::Rtu };
     let level = (n / 2) % 36;
     let decode = ((level % 4) as u8, ((level / 4) % 3) as u8, ((level / 12) % 3) as u8);
-    let frames = 3000usize;
+    // what the backlog consists of: requests that are answered, requests to a unit that is not
+    // configured (read, dropped, no reply: the session never writes), or both alternating
+    let kind = (n / 72) % 3;
+    // a session that never writes gives way only when the transport's cooperative budget is used up
+    // (64 reads of up to 256 bytes here, 128 operations in tokio): the backlog must be several
+    // times that, or "read most of it" says nothing
+    let frames = if kind == 0 { 3000usize } else { 16_000 };
     let mut rest = vec![];
     for k in 0..frames {
         let pdu = [3u8, 0, (k % 50) as u8, 0, 1 + (k % 3) as u8];
+        let unit = match kind {
+            0 => 1u8,
+            1 => 9,
+            _ => [1u8, 9][k % 2],
+        };
         rest.extend(match framing {
-            Framing::Mbap => mbap_frame(k as u16, 1, &pdu),
-            Framing::Rtu => rtu_frame(1, &pdu),
+            Framing::Mbap => mbap_frame(k as u16, unit, &pdu),
+            Framing::Rtu => rtu_frame(unit, &pdu),
         });
     }
+    let frame_len = rest.len() / frames;
     let first = match framing {
         Framing::Mbap => mbap_frame(0xFFFF, 1, &[3, 0, 0, 0, 1]),
         Framing::Rtu => rtu_frame(1, &[3, 0, 0, 0, 1]),
@@ -254,18 +266,21 @@ fn server_busy_peer_case(seed: u64, n: u64, ev: &mut Evidence) {
         k
     };
     ev.max("busy_peer_requests_answered_after_stop_command", answered as u64);
-    let rep = json!({"n": n, "role": "server", "tag": "busy_peer", "framing": framing.name(), "stop": if drop_handle { "handle_drop" } else { "shutdown" }});
+    let consumed = obs.bytes_delivered as usize / frame_len;
+    ev.max("busy_peer_requests_read_after_stop_command", consumed as u64);
+    let kind_name = ["answered", "unanswered", "alternating"][kind as usize];
+    let rep = json!({"n": n, "role": "server", "tag": "busy_peer", "backlog": kind_name, "framing": framing.name(), "stop": if drop_handle { "handle_drop" } else { "shutdown" }});
     if let Some(p) = &obs.panic {
         ev.violation(format!("server_panic:{}", crate::util::panic_site(p)), format!("server session panicked with a busy peer: {p}"), rep);
         return;
     }
-    ev.class(format!("server|{}|decode{}|busy_peer|{}", framing.name(), level, if obs.end_is_shutdown { "shutdown" } else { "other" }));
+    ev.class(format!("server|{}|decode{}|busy_peer|{}|{}", framing.name(), level, kind_name, if obs.end_is_shutdown { "shutdown" } else { "other" }));
     // with a fair loop the stop is seen within a few hundred requests; draining half of the backlog
     // first means it is only seen when the peer pauses
-    if !obs.end_is_shutdown || answered > frames / 2 {
+    if !obs.end_is_shutdown || answered > frames / 2 || consumed > frames / 2 {
         ev.violation(
-            format!("server_ignores_{}_while_peer_keeps_sending:{}", if drop_handle { "handle_drop" } else { "shutdown" }, framing.name()),
-            format!("{} was issued when a backlog of {frames} requests became readable; the session answered {answered} of them and ended with {:?}", if drop_handle { "handle drop" } else { "shutdown" }, obs.end),
+            format!("server_ignores_{}_while_peer_keeps_sending:{}:{kind_name}", if drop_handle { "handle_drop" } else { "shutdown" }, framing.name()),
+            format!("{} was issued when a backlog of {frames} requests ({kind_name}) became readable; the session read {consumed} and answered {answered} of them and ended with {:?}", if drop_handle { "handle drop" } else { "shutdown" }, obs.end),
             rep,
         );
     }
